@@ -86,9 +86,10 @@ class Builder:
     def path(self, name):
         return os.path.join(self.dir, name)
 
-    def compile_many(self, units):
-        """units: [(src, obj, flags)] -> compiles the missing ones in parallel."""
-        todo = [u for u in units if not os.path.exists(u[1])]
+    def compile_many(self, units, tolerate=False):
+        """units: [(src, obj, flags)] -> compiles the missing ones in parallel. With tolerate=True a unit
+        that does not compile is recorded (obj + '.failed') instead of failing the build."""
+        todo = [u for u in units if not os.path.exists(u[1]) and not (tolerate and os.path.exists(u[1] + '.failed'))]
         if not todo:
             return True
         ok = True
@@ -98,6 +99,9 @@ class Builder:
             cmd = [CXX] + COMMON + flags + ['-c', src, '-o', tmp]
             r = subprocess.run(cmd, capture_output=True, text=True)
             if r.returncode != 0:
+                if tolerate:
+                    open(obj + '.failed', 'w').write(r.stderr[-6000:])
+                    return None
                 return (src, r.stderr[-6000:])
             os.replace(tmp, obj)
             return None
@@ -194,6 +198,62 @@ class Builder:
             return None
         out = os.path.join(outdir, 'tables')
         return out if self.link(objs, out, SAN) else None
+
+    def build_fungible(self, seed, count, depth):
+        outdir = self.path('fung_%d_%d_%d' % (seed, count, depth))
+        marker = os.path.join(outdir, '.done')
+        parts = 8
+        if not os.path.exists(marker):
+            cmd = [sys.executable, os.path.join(ROOT, 'verif', 'gen_fungible.py'), '--seed', str(seed), '--count', str(count), '--depth', str(depth),
+                   '--parts', str(parts), '--outdir', outdir]
+            r = subprocess.run(cmd, capture_output=True, text=True)
+            if r.returncode != 0:
+                log('GEN-FAILED', r.stderr)
+                return None
+            open(marker, 'w').write(r.stdout)
+        inc = ['-I', outdir]
+        units = [(os.path.join(ROOT, 'kit', 'rcdrv.cc'), self.path('rcdrv.o'), SAN + ['-O1'])]
+        objs = [self.path('rcdrv.o')]
+        for f in ('codec_util', 'codec_props1', 'codec_props2', 'fungible'):
+            obj = self.path(f + '.o')
+            units.append((os.path.join(ROOT, 'harness', f + '.cc'), obj, SAN + ['-O1']))
+            objs.append(obj)
+        for k in list(range(parts)) + ['index']:
+            name = 'fung_part_%s' % k if k != 'index' else 'fung_index'
+            obj = os.path.join(outdir, name + '.o')
+            units.append((os.path.join(outdir, name + '.cc'), obj, SAN + ['-O0'] + inc))
+            objs.append(obj)
+        if not self.compile_many(units):
+            return None
+        pair_units = []
+        i = 0
+        while os.path.exists(os.path.join(outdir, 'fung_pair_%d.cc' % i)):
+            pair_units.append((os.path.join(outdir, 'fung_pair_%d.cc' % i), os.path.join(outdir, 'fung_pair_%d.o' % i), SAN + ['-O0'] + inc))
+            i += 1
+        self.compile_many(pair_units, tolerate=True)
+        objs += [u[1] for u in pair_units if os.path.exists(u[1])]
+        out = os.path.join(outdir, 'fungible')
+        return out if self.link(objs, out, SAN) else None
+
+    def gen_consts(self, seed, count=40):
+        outdir = self.path('consts_%d_%d' % (seed, count))
+        hdr = os.path.join(outdir, 'gen_consts.h')
+        if not os.path.exists(hdr):
+            os.makedirs(outdir, exist_ok=True)
+            r = subprocess.run([sys.executable, os.path.join(ROOT, 'verif', 'gen_consts.py'), '--seed', str(seed), '--count', str(count), '--out', hdr + '.tmp'],
+                               capture_output=True, text=True)
+            if r.returncode != 0:
+                log('GEN-FAILED', r.stderr)
+                return None
+            os.replace(hdr + '.tmp', hdr)
+        return outdir
+
+    def build_siphash(self, seed, count=40):
+        inc = self.gen_consts(seed, count)
+        if not inc:
+            return None
+        name = 'siphash_%d_%d' % (seed, count)
+        return self.build_single(name, os.path.join(ROOT, 'harness', 'siphash.cc'), SAN + ['-O1', '-I', inc])
 
     def build_single(self, name, src, flags, link_flags=None, gen=None):
         """A one-TU harness. flags: full sanitizer/opt flag list. gen: optional callable producing generated headers."""
@@ -295,6 +355,10 @@ def resolve_binary(b, target, seed):
     if parts[0] in ('codec', 'fuzz'):
         bins = b.build_codec(parts[1], seed if parts[1] == 'random' else 1, fuzz=(parts[0] == 'fuzz'))
         return bins[int(parts[2])] if bins else None
+    if parts[0] == 'siphash':
+        return b.build_siphash(int(parts[1]), int(parts[2]))
+    if parts[0] == 'fungible':
+        return b.build_fungible(int(parts[1]), int(parts[2]), int(parts[3]))
     if parts[0] == 'tables':
         return b.build_tables(int(parts[1]), int(parts[2]))
     if parts[0] == 'single':
